@@ -27,6 +27,10 @@ pub mod flume {
 /// (used at u8 and u16 only, where `==` is equality of values)
 pub assume_specification<T: PartialEq>[ <[T]>::contains ](s: &[T], x: &T) -> (r: bool) ensures r == s@.contains(*x);
 
+/// further u32 arithmetic a changed counter may use (std semantics)
+pub assume_specification[ u32::overflowing_add ](a: u32, b: u32) -> (r: (u32, bool))
+    ensures r.0 as int == (a as int + b as int) % 0x1_0000_0000, r.1 == (a as int + b as int > u32::MAX as int);
+
 //@EXTRACT input_stat_type
 
 //@EXTRACT stats_struct
@@ -95,6 +99,21 @@ impl Stats {
 //@EXTRACT add_payload_size
 
 //@EXTRACT flush_stats
+}
+
+
+// ---- the scanner's per-header hook (InputScanner::collect_rdh_seen_stats, extracted): the scanner is reduced to the
+// field the function uses
+pub struct Rdh { pub link: u8, pub fee: u16 }
+impl Rdh {
+    #[verifier::external_body]
+    pub fn link_id(&self) -> (r: u8) ensures r == self.link { unimplemented!() }
+    #[verifier::external_body]
+    pub fn fee_id(&self) -> (r: u16) ensures r == self.fee { unimplemented!() }
+}
+pub struct InputScanner { pub stats: Option<Stats> }
+impl InputScanner {
+//@EXTRACT collect_rdh_seen_stats
 }
 
 } // verus!
